@@ -115,4 +115,75 @@ def framesStack (rowCos colCos : V3) (psRow psCol : Rat) (hint : Option Rat) (po
   | some ps => .ok { rowCos := rowCos, colCos := colCos, psRow := psRow, psCol := psCol, hint := hint, pos := ps,
                      chan := frames.filterMap (fun f => f.seg) }
 
+/-! ## tiled total pixel matrix (slide coordinate system, `tile_pixel_array=True`)
+
+* `tileGrid`       the tiles `compute_tile_positions_per_frame` enumerates (row by row), by the 1-based offset of their
+                   first pixel in the total pixel matrix;
+* `tilePosition`   the slide coordinates it computes for a tile (`PixelToReferenceTransformer` on the 0-based offset);
+* `rankOf`         `np.where(np.unique(values) == v)[0][0] + 1`: the dimension index value of `v` among the values of the
+                   stored tiles;
+* `tileFrames`     the frame loop for TILED_SPARSE: `plane_sort_index = np.arange(n)` filtered by the non-empty tiles,
+                   segments outside, per-frame skip as for stacks, DimensionIndexValues = ranks of (row, column, x, y, z). -/
+
+/-- 1-based (row, column) offsets of the tiles of an `R × C` matrix cut into `tr × tc` tiles, row by row -/
+def tileGrid (R C tr tc : Nat) : List (Int × Int) :=
+  (List.range ((R + tr - 1) / tr)).flatMap (fun i =>
+    (List.range ((C + tc - 1) / tc)).map (fun j => (((i * tr : Nat) : Int) + 1, ((j * tc : Nat) : Int) + 1)))
+
+/-- slide coordinates of the tile whose first pixel is at the 1-based offset `(r, c)`: the total-pixel-matrix origin moved
+`c − 1` columns along the row direction and `r − 1` rows along the column direction -/
+def tilePosition (origin rowCos colCos : V3) (psRow psCol : Rat) (r c : Int) : V3 :=
+  add (add origin (smul (((r - 1 : Int) : Rat) * psRow) colCos)) (smul (((c - 1 : Int) : Rat) * psCol) rowCos)
+
+/-- distinct elements (first occurrences) -/
+def distinctRat : List Rat → List Rat
+  | [] => []
+  | a :: t => a :: (distinctRat t).filter (fun b => b != a)
+
+/-- 1-based position of `v` among the sorted distinct `vals` (for `v ∈ vals`): one more than the number of distinct
+smaller values -/
+def rankOf (vals : List Rat) (v : Rat) : Int := 1 + ((distinctRat (vals.filter (fun x => decide (x < v)))).length : Int)
+
+/-- one stored tile -/
+structure TileFrame where
+  seg : Option Nat
+  /-- index of the tile in `tileGrid` (the pixels of the frame are the tile at `row`, `col` of the mask) -/
+  tile : Nat
+  row : Int
+  col : Int
+  pos : V3
+  /-- DimensionIndexValues without the segment entry: (row, column, x, y, z) -/
+  div : List Int
+deriving Repr
+
+/-- a tile of the grid: 1-based (row, column) offset and slide coordinates -/
+abbrev Tile := (Int × Int) × V3
+
+/-- the plane loop over the kept tiles `(tile, index in the grid)`; `vals` = the kept tiles (for the dimension index values) -/
+def tileFramesOf (s : Option Nat) (om : Bool) (present : Option Nat → Nat → Bool) (vals : List Tile) :
+    List (Tile × Nat) → List TileFrame
+  | [] => []
+  | (q, t) :: rest =>
+    if skipped s om (present s t) then tileFramesOf s om present vals rest
+    else
+      ⟨s, t, q.1.1, q.1.2, q.2,
+        [rankOf (vals.map (fun k => (k.1.1 : Rat))) (q.1.1 : Rat), rankOf (vals.map (fun k => (k.1.2 : Rat))) (q.1.2 : Rat),
+         rankOf (vals.map (fun k => k.2.x)) q.2.x, rankOf (vals.map (fun k => k.2.y)) q.2.y, rankOf (vals.map (fun k => k.2.z)) q.2.z]⟩
+        :: tileFramesOf s om present vals rest
+
+/-- the tiles with their slide coordinates, in the order of `compute_tile_positions_per_frame` -/
+def tilesOf (origin rowCos colCos : V3) (psRow psCol : Rat) (R C tr tc : Nat) : List Tile :=
+  (tileGrid R C tr tc).map (fun rc => (rc, tilePosition origin rowCos colCos psRow psCol rc.1 rc.2))
+
+/-- the kept tiles with their index in the grid: `plane_sort_index = np.arange(n)` after the omission step -/
+def keptTiles (tiles : List Tile) (nonempty : List Bool) (om : Bool) : List (Tile × Nat) :=
+  tiles.zipIdx.filter (fun p => (includedPlanes (List.range tiles.length) nonempty om).contains p.2)
+
+/-- frames of a TILED_SPARSE segmentation built from one total-pixel-matrix mask: `nonempty[t]` = tile `t` of the grid has
+a non-zero pixel, `present s t` = segment `s` has a pixel in tile `t` -/
+def tileFrames (origin rowCos colCos : V3) (psRow psCol : Rat) (R C tr tc : Nat) (nonempty : List Bool) (om : Bool)
+    (segs : List (Option Nat)) (present : Option Nat → Nat → Bool) : List TileFrame :=
+  let kept := keptTiles (tilesOf origin rowCos colCos psRow psCol R C tr tc) nonempty om
+  segs.flatMap (fun s => tileFramesOf s (omitEff nonempty om) present (kept.map (fun p => p.1)) kept)
+
 end HdVerif.SegFrames
